@@ -54,6 +54,8 @@ def h_assign(c, np, cla):
     tab = tab64.astype(getattr(np, c.get("table_dtype", "float64")))
     if not (tab.astype(np.float64) == tab64).all():
         raise RuntimeError("harness: table not exactly representable in " + c["table_dtype"])
+    if c.get("big_endian"):                          # non-native byte order (what np.fromfile of a big-endian file gives)
+        tab = tab.astype(tab.dtype.newbyteorder(">"))
     if c.get("order") == "F":
         tab = np.asfortranarray(tab)
     elif c.get("order") == "S":                      # a strided (non-contiguous) view of a larger array
@@ -65,6 +67,10 @@ def h_assign(c, np, cla):
         beta = b64.astype(getattr(np, c.get("vector_dtype", "float64")))
         if not (beta.astype(np.float64) == b64).all():
             raise RuntimeError("harness: vector beta not exactly representable in " + c["vector_dtype"])
+        if c.get("big_endian"):
+            beta = beta.astype(beta.dtype.newbyteorder(">"))
+    elif c["beta_form"] == "array1":                 # a one-element array: broadcast like the scalar it holds
+        beta = np.array([c["beta"] / (2.0 ** s)], dtype=np.float64)
     else:
         beta = mk_scalar(c["beta"] / (2.0 ** s) if c["beta_form"] != "int" else c["beta"] // (2 ** s),
                          c["beta_form"], np)
